@@ -46,6 +46,14 @@ M=[
  ('C08','internal/filter/jbig2/decode.go',"if rawLen > (workBudgetHardCap-workBudgetBase)/workBudgetPerByte {","if rawLen > (workBudgetHardCap - workBudgetBase) {"),
  ('C12','font/charcode/range.go',"if s[i] < r.Low[i] || s[i] > r.High[i] {","if s[i] < r.Low[i] || s[i] >= r.High[i] {"),
  ('C12','font/charcode/range.go',"\t\tif len(s) < len(r.Low) {\n\t\t\tcontinue","\t\tif len(s) <= len(r.Low) {\n\t\t\tcontinue"),
+ ('C08','internal/filter/ccittfax/reader.go',"return 2*lineBufSize + columns*intBytes","return lineBufSize + columns*intBytes"),
+ ('C08','filter.go',"geoMax := max(1, min(limits.MaxImageHeight, limits.MaxImagePixels/cols))","geoMax := max(2, min(limits.MaxImageHeight, limits.MaxImagePixels/cols))"),
+ ('C08','filter.go',"cols := max(params.Columns, 1)","cols := max(params.Columns, 2)"),
+ ('C02','xref.go',"subStart > size || subSize > size-subStart {","subStart > size || subSize > size {"),
+ ('C02','xref.go',"if !ok || wi < 0 || wi > 8 {","if !ok || wi < 0 || wi > 9 {"),
+ ('C13','font/cmap/tu-mapping.go',"rr[len(rr)-1] += rune(inc)","rr[0] += rune(inc)"),
+ ('C15','graphics/content/state.go',"\tcase OpStroke, OpCloseAndStroke, OpFillAndStroke, OpFillAndStrokeEvenOdd,","\tcase OpStroke, OpCloseAndStroke, OpFillAndStrokeEvenOdd,"),
+ ('C15','graphics/content/stream.go',"\t} else if c >= 'A' && c <= 'F' {\n\t\treturn c - 'A' + 10\n\t} else if c >= 'a'","\t} else if c >= 'A' && c <= 'F' {\n\t\treturn c - 'A' + 11\n\t} else if c >= 'a'"),
  # outside the subset after a refactor: extraction must fail loudly
  ('C01','scanner.go',"func hexDigit(c byte) byte {\n\tswitch {","func hexDigit(c byte) byte {\n\tm := map[byte]byte{}\n\t_ = m\n\tswitch {"),
 ]
